@@ -935,10 +935,24 @@ def doc_features(body):
     return f
 
 
+def run_impl_safe(fn, cases, **kw):
+    """common.run_impl, tolerant to the watchdog firing while a worker is already leaving _worker_call (the
+    CaseTimeout then escapes pool.map): the batch is split and run again; a single case that does it counts as a
+    time-out"""
+    try:
+        return common.run_impl('impl_c08', fn, cases, **kw)
+    except Exception:       # noqa
+        if len(cases) <= 1:
+            return [('timeout', {}) for _ in cases]
+        h = len(cases) // 2
+        return run_impl_safe(fn, cases[:h], **kw) + run_impl_safe(fn, cases[h:], **kw)
+
+
 def run_docs(run, stream, docs, render):
     """docs: list of (body tree, html).  Judges every document; returns statistics."""
     cases = [dict(html=h, render=render) for _, h in docs]
-    outs = common.run_impl('impl_c08', 'build_and_render', cases, limit=60, chunksize=4)
+    # slow documents are not this property's business (non-termination / speed: C02): CPU limit, counted, skipped
+    outs = run_impl_safe('build_and_render', cases, limit=4, chunksize=1)
     wf_cases, wf_ref = [], []
     cg_cases, cg_ref = [], []
     tab_recs = []
@@ -1149,8 +1163,12 @@ def check(run):
     run.assumptions += ['text is modelled as UTF-8 bytes; text-transform is modelled for ASCII only',
                         'text boxes are in normal flow and not running (anonymous style)',
                         'capitalize is judged per text box as the implementation applies it',
-                        'fix-up models are on an abstract box type (class, in-flow, wrapper); box tree shape of full documents is '
-                        'judged by spec_wf_tree, not compared with the fix-up models']
+                        'fix-up models (anonymous_table_boxes, inline_in_block, block_in_inline) are on an abstract box type (class, '
+                        'in-flow, absolute, wrapper, white-space-only...) and tied by direct calls on synthetic real boxes; the box trees of '
+                        'full documents are judged by spec_wf_tree, not compared with the fix-up models; running elements, flex_boxes / '
+                        'grid_boxes and the span attribute of column groups are not modelled',
+                        'slow documents (CPU limit 4 s) are counted and skipped: speed / termination is C02',
+                        'element_to_box / content_to_boxes (counters, quotes, target-*) are only monitored through ::before/::after strings']
     stream_ws(run, rng, thorough)
     stream_tables(run, rng, thorough)
     stream_fixups(run, rng, thorough)
@@ -1163,7 +1181,7 @@ def replay(data):
     stream = d.get('stream')
     run = common.Run('C08', 'quick', 0)
     run.known = []
-    if 'html' in d and stream in ('doc-build', 'doc-render'):
+    if 'html' in d and stream in ('doc-build', 'doc-render', 'probe'):
         # the body tree is not stored: judge what does not need it (well-formedness, inline formatting contexts)
         (st, o), = common.run_impl('impl_c08', 'build_and_render', [dict(html=d['html'], render=stream == 'doc-render')], limit=120)
         if st != 'ok':
@@ -1212,8 +1230,22 @@ def replay(data):
         print('replay:', o, m)
         return 1 if m[0] else 0
     if stream == 'display':
-        (st, o), = common.run_impl('impl_c08', 'display_box', [d['case']])
-        print('replay:', o)
-        return 1
+        c = d['case']
+        (st, o), = common.run_impl('impl_c08', 'display_box', [c])
+        m = common.eval_cases('c08replay', PRE_DISP, 'posv * floatv * bool * disp * disp * floatv * nat',
+                              ['(%s,%s,%s,%s,%s,%s,%d)' % (POS[c['position']], FLOATS[c['float']], bl(c['root']), DISPLAYS[c['display']],
+                                                          disp_term(o['display']), FLOATS[o['float']], CLS_CODE[o['cls']])], 'display_judge')
+        print('replay:', o, m)
+        return 1 if m[0] else 0
+    if stream in ('fixup-tables', 'fixup-inline-in-block', 'fixup-block-in-inline'):
+        fn, judge = {'fixup-tables': ('fix_atb', 'atb_judge'), 'fixup-inline-in-block': ('fix_iib', 'iib_judge'),
+                     'fixup-block-in-inline': ('fix_bii', 'bii_judge')}[stream]
+        (st, o), = common.run_impl('impl_c08', fn, [d['case']])
+        if st != 'ok':
+            print('replay:', st, o)
+            return 1
+        m = common.eval_cases('c08replay', PRE_FIX, 'box * tree', ['(%s, %s)' % (box_term(d['case']['tree']), tree_term(o))], judge)
+        print('replay:', m)
+        return 1 if m[0] else 0
     print('nothing to replay for', stream)
     return 0
